@@ -129,7 +129,7 @@ def expected_channels(case, prev_full, k, m):
 
 def run(ctx):
     lines, pend = [], []
-    per = ctx.scale(70, 800)
+    per = ctx.scale(70, 1200)
     ctx.big_sparse = True      # modq.make_case queues one 143..150-node case per Louvain routine (direct oracle only)
     for fn in ROUTINES:
         R = ROUTINES[fn]
